@@ -228,6 +228,15 @@ def check_unbond(ctx, model):
             merges = True
         else:
             merges = any(o.kind == "load" and o.a.endswith("::state::UNBOND") for o in rec)
+        # ... and the record it merges is the one stored under the very key it saves to
+        from ..dataflow import expr_shape, norm_shape
+        with v.opaque(r"Timestamp::(nanos|seconds)$"):
+            save_key = norm_shape(expr_shape(v, st["args"][2], v.at_term(sb), depth=3))
+            load_keys = [norm_shape(expr_shape(v, lt["args"][2], v.at_term(lb), depth=3))
+                         for lb, lt in storage_calls(v, "whale_lair::state::UNBOND", ("may_load", "load"))]
+        if sc[1] != "update" and time_keyed:
+            ctx.ob("C08-B3", "%s|merge-reads-the-key-it-writes" % UNBOND, bool(load_keys) and all(k == save_key for k in load_keys),
+                   "UNBOND is read under %s and saved under %s" % (load_keys, save_key), v.where(sb))
         ctx.ob("C08-B3", "%s|time-keyed-write-merges" % UNBOND, (not time_keyed) or merges,
                "UNBOND key depends on the block time: %s; the saved amount merges an existing record at that key: %s" % (time_keyed, merges),
                v.where(sb))
